@@ -57,6 +57,21 @@ func cmdAllotScale(args []string) {
 				L = L / gcdInt(L, d) * d
 			}
 		}
+		// allotments nested in a clause split a share again: their denominators multiply in
+		L2 := 1
+		for _, it := range allotItems {
+			for _, key := range []string{"s", "to"} {
+				sub, _ := it.(J)[key].(J)
+				walkJ(sub, func(x J) {
+					if x["k"] == "portion" {
+						if d, isInt := x["d"].(int); isInt && d > 0 {
+							L2 = L2 / gcdInt(L2, d) * d
+						}
+					}
+				})
+			}
+		}
+		L *= L2
 		if !ok || L > 100000 {
 			continue
 		}
